@@ -375,7 +375,7 @@ func TestVerifC12(t *testing.T) {
 		for _, s := range x {
 			c.Params = append(c.Params, vk.RParam{Val: s})
 		}
-		p := &vk.RProg{Rules: []vk.RRule{{Conds: []vk.RCond{c}, Out: vk.ROut{Name: "g0"}}}, Fallback: vk.ROut{Name: "direct"}}
+		p := &vk.RProg{Rules: []vk.RRule{{Conds: []vk.RCond{c}, Out: vk.ROut{Name: verifGroups[0]}}}, Fallback: vk.ROut{Name: "direct"}}
 		rules, fb, err := verifParseRouting(p.Text())
 		if err != nil {
 			continue
@@ -451,9 +451,9 @@ func TestVerifC12(t *testing.T) {
 			return vk.RRule{Conds: []vk.RCond{c}, Out: vk.ROut{Name: out}}
 		}
 		fn := []string{"dip", "sip"}[r.IntN(2)]
-		p := &vk.RProg{Rules: []vk.RRule{mk(fn, A, "g0"), mk(fn, B, "g1")}, Fallback: vk.ROut{Name: "direct"}}
+		p := &vk.RProg{Rules: []vk.RRule{mk(fn, A, verifGroups[0]), mk(fn, B, verifGroups[1])}, Fallback: vk.ROut{Name: "direct"}}
 		if r.IntN(2) == 0 {
-			p.Rules[0], p.Rules[1] = mk(fn, B, "g1"), mk(fn, A, "g0")
+			p.Rules[0], p.Rules[1] = mk(fn, B, verifGroups[1]), mk(fn, A, verifGroups[0])
 		}
 		rules, fb, err := verifParseRouting(p.Text())
 		if err != nil {
